@@ -322,6 +322,19 @@ def rule_k6(ctx, F, parts=("rank", "slots", "final", "side", "init")):
                 a0, a1 = sym(c_["args"][0]), sym(c_["args"][1])
                 if {a0, a1} == {("var", "row"), ("var", "col")} and (a0, a1) != (("var", "row"), ("var", "col")):
                     sw.append(hir.line(c_))
+        # a slot's key is folded into the hash after the slot was assigned (before it the slot still holds 0)
+        early = []
+        for x_, anc_ in hir.walk(body):
+            if x_.get("k") == "AssignOp" and x_.get("op") == "^=":
+                r_ = sym(x_["r"])
+                if r_[:1] == ("index",) and "past_hashes" in hir.fmt(r_[1], 40):
+                    blk_ = [a_ for a_ in anc_ if a_.get("k") == "Block"]
+                    ws_ = [y_ for y_, _ in hir.walk(blk_[-1]) if y_.get("k") == "Assign" and hir.strip(y_["l"]).get("k") == "Index"
+                           and sym(hir.strip(y_["l"])) == r_] if blk_ else []
+                    if not ws_ or min(hir.order_key(y_) for y_ in ws_) > hir.order_key(x_):
+                        early.append(hir.line(x_))
+        ctx.check("C04.K6", "slot-key-folded-in-after-the-slot-is-assigned", not early, fn=fn["path"], file=fn["file"], line=early[0] if early else None,
+                  what="the importer xors a per-square slot into the hash before the slot was given the square's key", found=early)
         ctx.check("C04.K6", "scan-squares-are-(row,col)", not sw, fn=fn["path"], file=fn["file"], line=sw[0] if sw else None,
                   what="the importer builds a square of the scan as (col, row): pieces / empty-square keys land on the transposed square",
                   expected="Position::new(row, col)", found=sw)
